@@ -1582,9 +1582,9 @@ def oracle_path(pid, sc, obs):
 
 
 GZ_TREE = {"plain": "P", "both": "P", "both.gz": "P", "gzdir": "P", "onlygz.gz": "P", "sub/both": "P", "sub/both.gz": "P", "dir.gz": "P", "both.gz.gz": "P",
-           "gzdir.gz": "D", "missing.gz": "D", "sub": "D", "dir": "D", "chardev": "P", "chardev.gz": "P"}
+           "gzdir.gz": "D", "missing.gz": "D", "sub": "D", "dir": "D", "chardev": "P", "chardev.gz": "P", "loop": "P", "loop.gz": "E"}
 GZ_CONTENT = {"plain": "P:plain", "both": "P:both", "both.gz": "Z:both", "gzdir": "P:gzdir", "onlygz.gz": "Z:onlygz", "sub/both": "P:sub/both",
-              "sub/both.gz": "Z:sub/both", "dir.gz": "Z:dir", "both.gz.gz": "Z:both.gz", "chardev": "P:chardev", "chardev.gz": ""}
+              "sub/both.gz": "Z:sub/both", "dir.gz": "Z:dir", "both.gz.gz": "Z:both.gz", "chardev": "P:chardev", "chardev.gz": "", "loop": "P:loop"}
 
 
 def fam_gz_siblings():
@@ -1594,7 +1594,7 @@ def fam_gz_siblings():
             for auto in (1, 0):
                 k += 1
                 out.append({"id": "gs%d" % k, "kind": "gz", "path": path, "ae": ae, "auto": auto})
-    for path in ("plain", "both", "gzdir", "onlygz", "missing", "sub/both", "dir", "both.gz", "sub", "nothing", "chardev"):
+    for path in ("plain", "both", "gzdir", "onlygz", "missing", "sub/both", "dir", "both.gz", "sub", "nothing", "chardev", "loop"):
         for ae in (None, "gzip", "identity", "gzip;q=0", "*", "gzip;q=0.5, identity;q=0.9", "br", "gzip, identity;q=0", ""):
             for auto in (1, 0):
                 k += 1
@@ -1623,6 +1623,11 @@ def oracle_gz_sibling(pid, sc, obs):
         return None if what == "invalid" else "get(%r) with Accept-Encoding %r, auto_gzip %s must be refused (absolute, NUL or `..` segment) but returned %s" % (path, sc["ae"], bool(sc["auto"]), what)
     sib = GZ_TREE.get(path + ".gz")
     want_gz = bool(sc["auto"]) and pref and sib == "P"
+    if bool(sc["auto"]) and pref and sib == "E":
+        # the sibling exists, is not a directory and cannot be opened: "fails the way opening that file fails"
+        if what.startswith("err:") and what != "err:NotFound":
+            return None
+        return "get(%r) with Accept-Encoding %r, auto_gzip True: the .gz sibling exists but cannot be opened (symlink loop), yet the answer is %s instead of that error" % (path, sc["ae"], what)
     if want_gz:
         exp = "ok:file:" + GZ_CONTENT[path + ".gz"]
     elif GZ_TREE.get(path) == "P":
